@@ -24,8 +24,15 @@ VERIF = os.path.dirname(os.path.dirname(os.path.dirname(os.path.abspath(__file__
 LEAN = os.path.join(VERIF, "lean")
 HARNESS = os.path.join(VERIF, "harness")
 WORK = os.path.join(VERIF, ".work")
-FVH = os.path.join(HARNESS, "target", "debug", "fvh")
-FVMODEL = os.path.join(LEAN, ".lake", "build", "bin", "fvmodel")
+
+
+def fvh_bin(area):
+    return os.path.join(HARNESS, "target", "debug", "fvh_" + area)
+
+
+def fvm_bin(area):
+    return os.path.join(LEAN, ".lake", "build", "bin", "fvm_" + area)
+
 ALLOWED_AXIOMS = {"propext", "Classical.choice", "Quot.sound"}
 NCPU = os.cpu_count() or 4
 
@@ -164,10 +171,9 @@ def axiom_audit(prop_id, module, names):
     return rc == 0, res, out
 
 
-def cargo_build():
-    # Cargo.lock is copied from /repo so that the harness resolves exactly the repo's versions
-    lock_src = "/repo/Cargo.lock"
-    rc, out = sh(["cargo", "build", "--offline"], cwd=HARNESS, timeout=3600)
+def cargo_build(area):
+    # only this area's binary: an API change that breaks another area's harness must not break this tie
+    rc, out = sh(["cargo", "build", "--offline", "--bin", "fvh_" + area], cwd=HARNESS, timeout=3600)
     return rc == 0, out
 
 
@@ -245,12 +251,12 @@ def run_sharded(binary, lines, tag, shards=None, **kw):
     return out
 
 
-def run_impl(lines, **kw):
-    return run_sharded(FVH, lines, "impl", **kw)
+def run_impl(area, lines, **kw):
+    return run_sharded(fvh_bin(area), lines, "impl_" + area, **kw)
 
 
-def run_model(lines, **kw):
-    return run_sharded(FVMODEL, lines, "model", **kw)
+def run_model(area, lines, **kw):
+    return run_sharded(fvm_bin(area), lines, "model_" + area, **kw)
 
 
 # ---------------------------------------------------------------------------------------------
@@ -337,7 +343,7 @@ def run_check(P, tier, seed, replay=None):
     if not ok_proof:
         errs = re.findall(r"error: ([^\n]*)", out)
         proof_broken.append("lake build %s failed: %s" % (module, "; ".join(errs[:8])))
-    ok_exe, out2 = lake_build(["fvmodel"])
+    ok_exe, out2 = lake_build(["fvm_" + P.AREA])
     if not ok_exe:
         errs = re.findall(r"error: ([^\n]*)", out2)
         tie_broken.append("model driver does not build: " + "; ".join(errs[:8]))
@@ -359,7 +365,7 @@ def run_check(P, tier, seed, replay=None):
             else:
                 proof_broken.append("axiom audit: %s -> %s" % (n, axioms.get(n, "not found")))
     # S3
-    ok_h, hout = cargo_build()
+    ok_h, hout = cargo_build(P.AREA)
     if not ok_h:
         errs = re.findall(r"error[^\n]*\n[^\n]*", hout)
         tie_broken.append("harness does not build against /repo: " + " | ".join(errs[:5]))
@@ -374,8 +380,8 @@ def run_check(P, tier, seed, replay=None):
 
     def evaluate(cases):
         """run both sides, return list of (case, impl, model, pred_failure|None, disagree:bool)"""
-        io = run_impl(cases) if ok_h else ["NO-HARNESS"] * len(cases)
-        mo = run_model(cases) if ok_exe else [None] * len(cases)
+        io = run_impl(P.AREA, cases) if ok_h else ["NO-HARNESS"] * len(cases)
+        mo = run_model(P.AREA, cases) if ok_exe else [None] * len(cases)
         out = []
         for c, i, m in zip(cases, io, mo):
             why = P.predicate(c, i)
